@@ -778,7 +778,7 @@ def t_getitem(model, R):
         R.bad('GUARD', func, test, 'KeyError iff unknown object or property', 'object tested against _objects, property against _properties',
               f.text)
     else:
-        R.check(diff is None, 'GUARD', func, test, 'KeyError iff unknown object or property',
+        R.decided(diff is None, 'GUARD', func, test, 'KeyError iff unknown object or property',
                 'raise KeyError iff o not in objects or p not in properties', f.text, extra={'differs_at': diff})
     # the answer itself: pair in self._pairs
     rets = sorted((n for n in walk(func.body) if isinstance(n, ast.Return) and n.value is not None), key=lambda n: n.lineno)
@@ -916,8 +916,9 @@ def unique_rules(model, R):
             call = [n for n in walk(func.body) if isinstance(n, ast.Call) and chain(n.func) and chain(n.func)[-1] == '_fromargs']
             seen_key = src(call[0].args[0]) if call and call[0].args else None
         ok = seen_key is not None and adders == [seen_key] and seen_key in notin
+        # the filter idiom was parsed (membership tests and a side-effecting recorder): a wrong recorder is a recognised slot
         R.check(ok, 'UNIQUE-INVARIANT', func, lc, f'{name}: dedup records every kept item in the set that becomes _seen',
-                f'[x for x in ... if x not in {seen_key} and not {seen_key}.add(x)]', src(lc))
+                f'[x for x in ... if x not in {seen_key} and not {seen_key}.add(x)]', src(lc), strict=True if (notin and adders) else None)
         if name == 'rsub':
             R.check(src(ast.Attribute(value=ast.Name(id='self', ctx=ast.Load()), attr='_seen', ctx=ast.Load())) in notin,
                     'UNIQUE-INVARIANT', func, lc, 'rsub: items already present are dropped', 'x not in self._seen', src(lc))
